@@ -67,7 +67,10 @@ RULE = (
     "orthogonal as 4-vectors (dot exactly 0), equal, or unrelated, and three-camera chains q, q*a, q*b where b is beyond "
     "the first camera's half-space but inside the second's; extra non-key-frame sample_data, rational unit quaternions (squares of integer "
     "quaternions, yaw-only and full 3-D, both signs; the picked lidar's ego pose is fully 3-D in half of the samples), "
-    "dyadic translations/sizes; 0..8 2-D annotations (object_ann) on camera key frames, sweeps and lidar records, bbox "
+    "dyadic translations/sizes; NUMERIC TYPE VARIANT: in about half of the datasets the integer-valued numbers of translation / size / "
+    "rotation vectors are written as JSON integers (all, or every other one), and ego / annotation / calibration translations and "
+    "sizes are moved to integral values per vector with random rates (so that ego poses with an all-integer translation and a "
+    "non-trivial rotation, boxes of integer size, identity rotations [1,0,0,0] occur); 0..8 2-D annotations (object_ann) on camera key frames, sweeps and lidar records, bbox "
     "ints/floats/negative/inverted, instances with regulatory-element names sharing ids; each dataset is loaded for the "
     "12 configurations task x frame x merge, 2 fp_validation configurations and 4 random 2-D configurations (task x "
     "label family x merge x list of frame ids incl. absent cameras, non-camera ids and the empty list); CONTRACT "
@@ -119,8 +122,11 @@ ASSUMPTIONS = [
     "key frame (ValueError)",
     "the lidar that the loader picks is calibrated at the ego origin (identity calibrated_sensor), as the property "
     "states for T4 data; other sensors are arbitrary",
-    "translations/sizes are written as JSON floats (an all-integer JSON translation makes the devkit's in-place "
-    "Box.translate raise a numpy casting error - devkit behaviour, outside the property)",
+    "numbers of the written tables: integer-valued components of translation / size / rotation vectors are written as JSON "
+    "integers in about half of the datasets (all of them, or every other one), and vectors are moved to integral values to "
+    "make that frequent; one exception: an annotation translation is written with integers only when every ego translation "
+    "of the dataset is integral (an all-integer box centre makes the devkit's in-place Box.translate by a float ego "
+    "translation raise a numpy casting error - devkit behaviour, outside the property)",
     "tracked history is compared as the loader exposes it: annotated GLOBAL poses of the preceding annotations of the "
     "instance, also when the objects themselves are requested in base_link",
     "velocities (current: _get_box_velocity, tracked: box_velocity) are not part of the property text: they are "
@@ -285,14 +291,57 @@ def shape_tlr(rng, case, relations=None):
     return case
 
 
-_JSON_INTS = False  # write_dataset(case with "json_ints": true): integer-valued numbers are written as JSON ints
+# NUMERIC TYPE VARIANT of the written dataset (the mathematical values, hence the model request and the oracle's
+# expectation, are unchanged): write_dataset(case with "json_ints") writes integer-valued numbers of translation / size /
+# rotation vectors as JSON integers -- "all" (or true): every one, "alt": every other one (vectors that mix 12 and -7.0).
+_JSON_INTS = False
+_INT_COUNT = [0]
+JSON_INT_MODES = ("all", "alt")
 
 
-def _fl(xs):
+def _fl(xs, ints_ok=True):
     out = [float(Fraction(x)) for x in xs]
-    if _JSON_INTS:
-        out = [int(v) if v == int(v) else v for v in out]
+    if _JSON_INTS and ints_ok:
+        for k, v in enumerate(out):
+            if v == int(v):
+                _INT_COUNT[0] += 1
+                if _JSON_INTS != "alt" or _INT_COUNT[0] % 2:
+                    out[k] = int(v)
     return out
+
+
+def _is_integral(xs):
+    return all(Fraction(x).denominator == 1 for x in xs)
+
+
+def numeric_variant(rng, case, p_ints=0.5):
+    """the numeric-type device: (i) some vectors of the dataset are moved to integral values (a vehicle standing at
+    (12, -7, 0), a box of 2 x 4 x 1 m) -- a different dataset, chosen before anything is computed from it; (ii) the
+    writer is told to write integer-valued numbers as JSON integers (same dataset, other numeric type in the file)."""
+    def snap(xs, lo=None):
+        out = []
+        for x in xs:
+            v = round(float(Fraction(x)))
+            out.append(core.q(Fraction(max(lo, v) if lo is not None else v)))
+        return out
+
+    ints = rng.random() < p_ints
+    if rng.random() < (0.7 if ints else 0.15):
+        pe, pa, ps, pc = rng.choice([0.3, 0.8, 1.0]), rng.choice([0.0, 0.5, 1.0]), rng.choice([0.0, 0.5, 1.0]), rng.choice([0.0, 0.5])
+        for e in case["ego_poses"]:
+            if rng.random() < pe:
+                e["translation"] = snap(e["translation"])
+        for a in case["annotations"]:
+            if rng.random() < pa:
+                a["translation"] = snap(a["translation"])
+            if rng.random() < ps:
+                a["size"] = snap(a["size"], 1)
+        for c in case["calibrated_sensors"]:
+            if rng.random() < pc:
+                c["translation"] = snap(c["translation"])
+    if ints:
+        case["json_ints"] = rng.choice(["all", "all", "alt"])
+    return case
 
 
 # ----------------------------------------------------------------------------- generator
@@ -435,6 +484,7 @@ def gen_dataset(rng, max_samples=6, lidar_mode=None, n_samples=None, family=None
     if tlr_rig or rng.random() < 0.5:  # fixed finding C16-N1: the same rotation with opposite quaternion signs, and neighbours
         shape_tlr(rng, case)
     add_2d(rng, case, tlr=rng.random() < 0.4)
+    numeric_variant(rng, case)
     if family:
         apply_family(rng, case, family, dup_table)
     return case
@@ -774,6 +824,15 @@ def corpus():
         for i, s in enumerate(c["samples"]):
             s["timestamp"] = 1_600_000_000_000_000 + i * step
         cs.append(c)
+    # numeric type variant: the fixed dataset with every ego pose at integral coordinates (rotations as they are: tilted and
+    # yawed), integer-valued numbers written as JSON integers -- all of them / every other one / none (12.0 stays a float)
+    for mode in ("all", "alt", None):
+        c = _fixed_case()
+        for e in c["ego_poses"]:
+            e["translation"] = [core.q(Fraction(round(float(Fraction(x))))) for x in e["translation"]]
+        if mode:
+            c["json_ints"] = mode
+        cs.append(c)
     out, seen = [], set()
     for c in cs:
         k = json.dumps(c, sort_keys=True)
@@ -806,7 +865,8 @@ def generate(rng, tier):
 def write_dataset(case, root):
     """the devkit's 13 tables (version folder `annotation`) for the abstract tables of the case"""
     global _JSON_INTS
-    _JSON_INTS = bool(case.get("json_ints"))
+    _JSON_INTS = case.get("json_ints") or False
+    _INT_COUNT[0] = 0
     try:
         _write_dataset(case, root)
     finally:
@@ -819,6 +879,9 @@ def _write_dataset(case, root):
     os.makedirs(os.path.join(root, "maps"))
     open(os.path.join(root, "maps", "m.png"), "wb").close()
     S = case["samples"]
+    # devkit behaviour (ASSUMPTIONS): a box centre that is an all-integer JSON list cannot be moved in place by a float ego
+    # translation -- annotation translations are written as integers only in a dataset whose ego translations are all integral
+    ann_ints = all(_is_integral(e["translation"]) for e in case["ego_poses"])
     chan_of_cs = {}
     sen = {s["token"]: s for s in case["sensors"]}
     for c in case["calibrated_sensors"]:
@@ -847,7 +910,7 @@ def _write_dataset(case, root):
                         for x in case["sample_data"]],
         "sample_annotation": [{"token": a["token"], "sample_token": a["sample_token"], "instance_token": a["instance_token"],
                                "visibility_token": a["visibility_token"], "attribute_tokens": list(a["attribute_tokens"]),
-                               "translation": _fl(a["translation"]), "size": _fl(a["size"]), "rotation": _fl(a["rotation"]),
+                               "translation": _fl(a["translation"], ann_ints), "size": _fl(a["size"]), "rotation": _fl(a["rotation"]),
                                "prev": a["prev"], "next": a["next"], "num_lidar_pts": a["num_lidar_pts"], "num_radar_pts": a["num_lidar_pts"] + 1}
                               for a in case["annotations"]],
     }
@@ -1504,6 +1567,17 @@ def branches(case, out):
     if not A:
         br.append("trivial")
     br.append(f"samples:{len(S)}")
+    br.append(f"json-numbers:{case.get('json_ints') or 'floats'}")
+    if case.get("json_ints") in ("all", True):
+        picked = [_picked_lidar(case, s_["token"]) for s_ in S]
+        egos = {e["token"]: e for e in case["ego_poses"]}
+        pe = [egos[x["ego_pose_token"]] for x in picked if x is not None and x["ego_pose_token"] in egos]
+        if any(_is_integral(e["translation"]) and not _is_integral(e["rotation"]) for e in pe):
+            br.append("json-numbers:picked-ego-translation-all-int+rotation-fractional")
+        if all(_is_integral(e["translation"]) for e in case["ego_poses"]) and any(_is_integral(a["translation"]) for a in A):
+            br.append("json-numbers:annotation-translation-all-int")
+        if any(_is_integral(a["size"]) for a in A):
+            br.append("json-numbers:size-all-int")
     br.append(f"instances:{min(len(case['instances']), 6)}")
     chans = {s["channel"] for s in case["sensors"]}
     br.append("lidar:" + ("both" if {"LIDAR_TOP", "LIDAR_CONCAT"} <= chans else "top" if "LIDAR_TOP" in chans else "concat" if "LIDAR_CONCAT" in chans else "none"))
